@@ -324,6 +324,19 @@ def sqrMulLoop (b : Nat) : List Bool → Nat → Nat
   | [], r => r
   | bit :: rest, r => sqrMulLoop b rest (if bit then r * r * b else r * r)
 
+/-- n_pow_ui.c:204-278 and the `bsize == 1` loop of 411-432: a one-limb (odd part of the) base.
+    Returns the power without the factor `2^rtwos_bits'` and the `rtwos_bits'` still to be applied. -/
+def npuOneLimb (blimb e rtwos_bits : Nat) : Nat × Nat :=
+  let (blimb, rl, e) := smallPow 64 blimb 1 e
+  -- got_rl: combine left-over rtwos_bits into rl
+  let (rl, rtwos_bits) :=
+    if rtwos_bits != 0 && rl != 1 && rl >>> (64 - rtwos_bits) == 0
+    then ((rl <<< rtwos_bits) % B, 0) else (rl, rtwos_bits)
+  if e = 0 then (rl, rtwos_bits)                              -- rp[0] = rl; rsize = 1
+  else
+    let r := sqrMulLoop blimb (lowerBits e) blimb            -- mul_1 loop
+    ((if rl != 1 then r * rl else r), rtwos_bits)             -- if (rl != 1) MPN_MUL_1 (rp, rsize, ralloc, rl)
+
 /-- mpz_n_pow_ui (r, bp, bsize, e): `bneg` = sign of `bsize`, `bp` = the |bsize| limbs. -/
 def n_pow_ui (bneg : Bool) (bp : List Nat) (e : Nat) : Int :=
   if e = 0 then 1                                           -- b^0 == 1, including 0^0 == 1
@@ -342,23 +355,13 @@ def n_pow_ui (bneg : Bool) (bp : List Nat) (e : Nat) : Int :=
     let rtwos_bits := (e * btwos) % B
     let rtwos_limbs := rtwos_limbs + rtwos_bits / 64
     let rtwos_bits := rtwos_bits % 64
-    -- the part after `got_rl:` for one-limb bases
-    let oneLimb (blimb : Nat) : Nat × Nat :=
-      let (blimb, rl, e) := smallPow 64 blimb 1 e
-      let (rl, rtwos_bits) :=
-        if rtwos_bits != 0 && rl != 1 && rl >>> (64 - rtwos_bits) == 0
-        then ((rl <<< rtwos_bits) % B, 0) else (rl, rtwos_bits)
-      if e = 0 then (rl, rtwos_bits)
-      else
-        let r := sqrMulLoop blimb (lowerBits e) blimb
-        ((if rl != 1 then r * rl else r), rtwos_bits)
     let (r, rtwos_bits) :=
-      if bsize = 1 then oneLimb blimb
+      if bsize = 1 then npuOneLimb blimb e rtwos_bits
       else if bsize = 2 then
         let bsecond := bp.getD 1 0
         let blimb := if btwos != 0 then blimb ||| ((bsecond <<< (64 - btwos)) % B) else blimb
         let bsecond := bsecond >>> btwos
-        if bsecond = 0 then oneLimb blimb
+        if bsecond = 0 then npuOneLimb blimb e rtwos_bits   -- Two limbs became one after rshift.
         else
           let b := blimb + B * bsecond
           (sqrMulLoop b (lowerBits e) b, rtwos_bits)
